@@ -509,3 +509,73 @@ Proof.
   - split; [| split; assumption].
     intros j Hj. apply call_at_node; [lia | exact S' | lia].
 Qed.
+
+(* ---------------- order independence: the stored object does not depend on the order of the points ---------------- *)
+Definition fsorted (l : list (R * R)) : Prop := StronglySorted (fun u v => fst u < fst v) l.
+
+Lemma fsorted_perm_eq : forall l l', fsorted l -> fsorted l' -> Permutation l l' -> l = l'.
+Proof.
+  induction l as [|u t IH]; intros l' S S' P.
+  - apply Permutation_nil in P. subst. reflexivity.
+  - destruct l' as [|u' t']; [apply Permutation_sym, Permutation_nil in P; discriminate|].
+    inversion S as [|? ? St Ft]; subst. inversion S' as [|? ? St' Ft']; subst.
+    assert (E : u = u').
+    { assert (I1 : In u (u' :: t')) by (apply (Permutation_in _ P); left; reflexivity).
+      assert (I2 : In u' (u :: t)) by (apply (Permutation_in _ (Permutation_sym P)); left; reflexivity).
+      destruct I1 as [E | I1]; [symmetry; exact E|]. destruct I2 as [E | I2]; [exact E|].
+      rewrite Forall_forall in Ft, Ft'. pose proof (Ft' u I1). pose proof (Ft u' I2). lra. }
+    subst u'. f_equal. apply IH; [exact St | exact St' | apply (Permutation_cons_inv P)].
+Qed.
+
+Lemma fsorted_combine : forall a b, StronglySorted Rlt a -> fsorted (combine a b).
+Proof.
+  induction a as [|x a IH]; intros b S; [constructor|].
+  destruct b as [|y b]; [constructor|]. inversion S as [|? ? Sa Fa]; subst. simpl. constructor; [apply IH; exact Sa|].
+  apply Forall_forall. intros [x' y'] Hin. simpl. apply in_combine_l in Hin. rewrite Forall_forall in Fa. apply Fa. exact Hin.
+Qed.
+
+Lemma combine_inj : forall (a b a' b' : list R), List.length b = List.length a -> List.length b' = List.length a' ->
+  combine a b = combine a' b' -> a = a' /\ b = b'.
+Proof.
+  induction a as [|x a IH]; intros b a' b' L L' E.
+  - destruct b; [|discriminate]. destruct a' as [|x' a']; [destruct b'; [split; reflexivity | discriminate]|].
+    destruct b'; [discriminate | simpl in E; discriminate].
+  - destruct b as [|y b]; [discriminate|]. destruct a' as [|x' a']; [simpl in E; discriminate|].
+    destruct b' as [|y' b']; [discriminate|]. simpl in E. inversion E; subst.
+    destruct (IH b a' b') as (A & B); [simpl in L; lia | simpl in L'; lia | assumption|]. subst. split; reflexivity.
+Qed.
+
+Lemma order_same_lists (px py px' py' : list R) :
+  List.length py = List.length px -> List.length py' = List.length px' -> px <> [] -> px' <> [] ->
+  NoDup px -> NoDup px' -> Permutation (combine px py) (combine px' py') ->
+  sx px = sx px' /\ sy px py = sy px' py'.
+Proof.
+  intros L L' Hne Hne' Hnd Hnd' P.
+  destruct (order_any px py VNone L Hne Hnd) as (_ & S & Pm & Lx & Ly).
+  destruct (order_any px' py' VNone L' Hne' Hnd') as (_ & S' & Pm' & Lx' & Ly').
+  assert (Q : combine (sx px) (sy px py) = combine (sx px') (sy px' py')).
+  { apply fsorted_perm_eq; [apply fsorted_combine; exact S | apply fsorted_combine; exact S' |].
+    eapply Permutation_trans; [exact Pm|]. eapply Permutation_trans; [exact P|]. apply Permutation_sym. exact Pm'. }
+  cbv zeta in Lx, Ly, Lx', Ly'.
+  assert (La : List.length (sy px py) = List.length (sx px)) by (rewrite Ly, Lx; reflexivity).
+  assert (Lb : List.length (sy px' py') = List.length (sx px')) by (rewrite Ly', Lx'; reflexivity).
+  exact (combine_inj _ _ _ _ La Lb Q).
+Qed.
+
+Theorem order_independent (px py px' py' : list R) (tb : val R) :
+  List.length py = List.length px -> List.length py' = List.length px' -> px <> [] -> px' <> [] ->
+  NoDup px -> NoDup px' -> Permutation (combine px py) (combine px' py') ->
+  Interpolation__order_points Rops (tobj px py tb) = Interpolation__order_points Rops (tobj px' py' tb).
+Proof.
+  intros L L' Hne Hne' Hnd Hnd' P.
+  destruct (order_any px py tb L Hne Hnd) as (E & S & Pm & Lx & Ly).
+  destruct (order_any px' py' tb L' Hne' Hnd') as (E' & S' & Pm' & Lx' & Ly').
+  rewrite E, E'.
+  assert (Q : combine (sx px) (sy px py) = combine (sx px') (sy px' py')).
+  { apply fsorted_perm_eq; [apply fsorted_combine; exact S | apply fsorted_combine; exact S' |].
+    eapply Permutation_trans; [exact Pm|]. eapply Permutation_trans; [exact P|]. apply Permutation_sym. exact Pm'. }
+  cbv zeta in Lx, Ly, Lx', Ly'.
+  assert (La : List.length (sy px py) = List.length (sx px)) by (rewrite Ly, Lx; reflexivity).
+  assert (Lb : List.length (sy px' py') = List.length (sx px')) by (rewrite Ly', Lx'; reflexivity).
+  destruct (combine_inj _ _ _ _ La Lb Q) as (A & B). rewrite A, B. reflexivity.
+Qed.
